@@ -198,6 +198,15 @@ def run(ctx: Context, rep) -> None:
                message="a counter reset without a new shard lets a shard grow "
                "beyond the limit")
 
+    from sa.rules.c18 import check_counters
+    check_counters(ctx, rep, "C10.count")
+    rep.rule(
+        "C10.count",
+        "the size recorded for a shard counts exactly the successful "
+        "writes: the per-shard counter and the filler's progress counter "
+        "both advance by one only after the write returned normally (same "
+        "check as C18.count), so the recorded size can neither exceed the "
+        "limit nor disagree with the rollover test")
     # who may call close_shard
     rep.rule(
         "C10.close",
